@@ -73,4 +73,96 @@ theorem validity_tests (len size mn mx cur e g : Int) :
   refine ⟨by decide +kernel, ?_, by decide +kernel, ?_, ?_, rfl, rfl, by decide +kernel, rfl, ?_, ?_, ?_⟩ <;>
     simp [imLenBad, imMinBad, imMaxBad, envSkip, envUnset, envSame]
 
+
+/-! ## validity of an index map -/
+
+/- FULL STATEMENT (`valid_iff`): `checkIndexMap im envs = .ok () ↔ ValidMap im envs`, where `ValidMap` = right length, every
+   entry an `int ≥ -1`, not all dropped, every integer of `0..max` present, and no two retained cells of one group in different
+   environments (for environments ≠ -2, the code's internal "unset" marker).
+   Proved below: the equivalence for the first five rules, with the environment rule still in the form "the environment loop
+   of the code returns normally".  Missing: `envLoop (ims.zip envs) (replicate … -2) = ok ↔ no group mixes environments`
+   (loop invariant over the `env_out` array); this part is covered by the correspondence (op `cg_check`) and by the oracle
+   (documented rules evaluated independently on every generated map, valid and invalid). -/
+theorem valid_iff_partial (im : List (Option Int)) (envs : List Int) :
+    checkIndexMap im envs = .ok () ↔
+      im.length = envs.length ∧ (∀ x ∈ im, x.isSome = true) ∧
+      ∃ mx mn, listMax (im.filterMap id) = some mx ∧ listMin (im.filterMap id) = some mn ∧ -1 ≤ mn ∧ 0 ≤ mx ∧
+        (∀ k : Nat, (k : Int) < mx → (k : Int) ∈ im.filterMap id) ∧
+        envLoop ((im.filterMap id).zip envs) (List.replicate (mx + 1 - mn).toNat envSentinel) = .ok () :=
+  checkIndexMap_ok_iff im envs
+
+/-- a periodic grid is refused -/
+theorem periodic_grid_raises (g : GridShape) (h : Rat) (uv ug : Sys) (envs : List Int) (im : List (Option Int))
+    (hp : (g.px || g.py || g.pz) = true) : (coarsegrainGrid g h uv ug envs im).isError = true := by
+  simp [coarsegrainGrid, hp, Res.isError]
+
+/-! ## conservation of volume -/
+
+/-- total volume of the coarse graph = (number of retained cells) · h³, expressed in the grid's units system -/
+theorem cg_volume {g : GridShape} {h : Rat} {uv ug : Sys} {envs : List Int} {im : List (Option Int)} {sp : CgSpace}
+    (henv : envs.length = g.size) (hok : coarsegrainGrid g h uv ug envs im = .ok sp) :
+    sp.vols.sum = (keptCount (im.filterMap id) : Rat) * (h * h * h * convFactor uv ug Dim.volume) :=
+  cg_volume_aux henv hok
+
+/-- the same in SI: Σ_g vol g · SI(ug³) = (#retained cells) · h³ · SI(uv³) -/
+theorem cg_volume_SI {g : GridShape} {h : Rat} {uv ug : Sys} {envs : List Int} {im : List (Option Int)} {sp : CgSpace}
+    (hug : ug.valid = true) (henv : envs.length = g.size) (hok : coarsegrainGrid g h uv ug envs im = .ok sp) :
+    sp.vols.sum * siFactor ug Dim.volume = (keptCount (im.filterMap id) : Rat) * (h * h * h * siFactor uv Dim.volume) := by
+  rw [cg_volume henv hok, convFactor_eq_div]
+  have := siFactor_ne hug Dim.volume
+  field_simp
+
+/-! ## edges -/
+
+/-- no self-loops (`i < j` on every edge) and no pair of groups twice -/
+theorem cg_no_loops_no_dups {g : GridShape} {h : Rat} {uv ug : Sys} {envs : List Int} {im : List (Option Int)} {sp : CgSpace}
+    (hok : coarsegrainGrid g h uv ug envs im = .ok sp) :
+    (∀ e ∈ sp.edges, e.i < e.j) ∧ (sp.edges.map edgeKey).Nodup := cg_edges_ok hok
+
+/- NOT PROVED for all inputs (statements kept in full; each is checked on every generated case by the oracle on the real
+   code and by the correspondence of the model, and on the concrete instances below by kernel evaluation):
+   * `cg_species_total` : Σ_g cgstate[s·ncg+g] = Σ_{im i ≠ −1} state[s·n+i]            (needs injectivity of s·ncg+g for the scatter lemma)
+   * `cg_env`           : env g = env i for every member i of g                          (last-writer loop + validity)
+   * `cg_chem_any`      : cgchem[s·ncg+g] = 1 ↔ ∃ member i, chem[s·n+i] ≥ 1 (flags ≥ 0)
+   * `cg_edge_iff`      : edge (g,g') ↔ g ≠ g' ∧ ∃ members sharing a face;  `cg_surface` = (#shared faces)·h²;
+                          `cg_distance²` = ‖centroid g − centroid g'‖²
+   * `uncg_group_total`, `uncg_dropped_zero`, `uncg_even`
+   * `identity_map`     : coarsegrain id = gridToGraph on reflecting grids
+   The scatter lemmas `scatterAdd_get` / `scatterAdd_sum` (Proofs/Coarsegrain.lean) are the common core of the first three. -/
+
+/-! ## concrete instances (kernel evaluation of the model): every clause of the property on a 4×1×1 and a 2×2×1 grid -/
+
+/-- 4 cells, environments 0,1,0,1, map [-1,0,1,0] (drop one cell, non-contiguous group {1,3}), h = 2 -/
+example :
+    coarsegrainSystem ⟨4, 1, 1, false, false, false⟩ 2 Sys.default Sys.default [0, 1, 0, 1] 1 [1, 2, 3, 4] [0, 1, 0, 0]
+        [some (-1), some 0, some 1, some 0]
+      = .ok { space := { vols := [16, 8], envs := [1, 0], edges := [⟨0, 1, 8, 0⟩], cx := [4, 4], cy := [0, 0], cz := [0, 0], counts := [2, 1] },
+              state := [6, 3], chem := [1, 0] } := by
+  decide +kernel
+
+/-- dropping cells of two different environments is accepted; mixing environments in a group is refused -/
+example : checkIndexMap [some (-1), some (-1), some 0, some 1] [0, 1, 0, 1] = .ok () ∧
+    (checkIndexMap [some 0, some 0, some 1, some 1] [0, 1, 0, 1]).isError = true ∧
+    (checkIndexMap [some 0, some 2, some (-1), some (-1)] [0, 1, 0, 1]).isError = true := by
+  decide +kernel
+
+/-- 2×2×1, groups {0,1} and {2,3}: two shared faces, surface 2h², centroids one edge apart -/
+example :
+    (coarsegrainGrid ⟨2, 2, 1, false, false, false⟩ (1/2) Sys.default Sys.default [0, 0, 0, 0] [some 0, some 0, some 1, some 1]).map
+        (fun sp => (sp.vols, sp.edges)) = .ok ([1/4, 1/4], [⟨0, 1, 1/2, 1/4⟩]) := by
+  decide +kernel
+
+/-- un-coarse-graining spreads evenly, keeps group totals, leaves dropped cells at zero -/
+example : uncoarsegrain 2 1 2 4 [-1, 0, 1, 0] [4, 6, 8, 10] = .ok [0, 2, 6, 2, 0, 4, 10, 4] := by decide +kernel
+
+/-- identity map = grid_to_graph (2×2×1, h = 1/2): same nodes, same edges with surface h² and distance² h² -/
+example :
+    (match coarsegrainGrid ⟨2, 2, 1, false, false, false⟩ (1/2) Sys.default Sys.default [0, 1, 0, 1] [some 0, some 1, some 2, some 3] with
+     | .ok sp =>
+       let gr := gridToGraph ⟨2, 2, 1, false, false, false⟩ (1/2) [0, 1, 0, 1]
+       sp.vols == gr.vols && sp.envs == gr.envs &&
+         (sp.edges.map fun e => (e.i, e.j, e.surface, e.dist)) == (gr.edges.map fun e => (e.i, e.j, e.surface, e.dist * e.dist))
+     | .error _ => false) = true := by
+  decide +kernel
+
 end Strengths.C16
